@@ -709,6 +709,10 @@ def compile_gbnf_from_meta(meta: dict) -> str:
     from octave_mcp.core.schema_extractor import FieldDefinition, SchemaDefinition
 
     schema_type = meta.get("TYPE", "UNKNOWN")
+    if not isinstance(schema_type, str):
+        # A non-string TYPE (list, number, ...) cannot name a schema: use the documented default
+        # instead of letting the value reach string operations further down
+        schema_type = "UNKNOWN"
 
     # Create schema from META
     schema = SchemaDefinition(
